@@ -34,6 +34,29 @@ CHECKS = {
         "ref": "DESIGN.md §2.1, §3 C04",
         "note": "The 246 classifier productions are not modelled: their value-preservation is the explicit Refines contract, checked on every parsed file of the run.",
     },
+    "C05": {
+        "text": "What is proved in Lean, for all token lists: the classifier's navigation primitives (find_next_token, find_next_non_whitespace_token, are_next/previous_consecutive_token_types_ignoring_whitespace, is_next_token) factor through the code view of the list (prims_*), with `decide` witnesses for the primitives and call patterns that do NOT (direct neighbour look-ups, value scans that read delimited-comment text); the four post passes commute with re-layout under three explicit guards each shown necessary (postPasses_relayout_partial); resizing a whitespace token of tokens.create's output changes no other token under two guards shown necessary (create_relayout_partial, 2 900 lines of lemmas). The 246 classifier productions (~8 300 lines) are NOT modelled: for them the property is decided per explored (file, re-layout) pair on the real parser — all 2 609 corpus files × re-layout families (whitespace, tabs, line splits/joins, comments at line ends and on own lines incl. delimited comments, case) produced by a generator whose output an independent scanner certifies to be a pure re-layout — with the role comparison executed by the Lean driver (compareRoles_same_iff) and a watchdog for non-terminating parses. Correspondence of every modelled primitive and post pass against the real functions on real classified lists.",
+        "technique": "Lean 4 proof (primitives, post passes, tokenizer under re-layout) + Lean-compared role sequences of re-laid-out corpus files through the real parser",
+        "ref": "DESIGN.md §3 C05",
+        "note": "This is where the technique reaches least: the productions are layer U. set_token_indent is not modelled.",
+    },
+    "C08": {
+        "text": "Lean theorems: emit_retokenise_partial — a line whose values are quote/backslash-free, alternate single whitespace values with segments that re-tokenise to themselves, is given back unchanged by the tokenizer model (for all tables satisfying TablesOk, proved for /repo's tables), via the compositionality lemma create_ws_compositional; whitespace_resize_retokenises; report_after_fix_eq (if the fresh parse equals the in-memory model, the report printed after --fix is the report of a fresh check); `decide` examples of lines that do not re-tokenise. Tie/search on the real code: after a real fix run the emitted text is parsed afresh and compared per token (class, value, indent) with the in-memory model, the first diverging step localised by bisection over an instrumented run; every emitted line goes through the Lean retok mode (well-formedness + re-tokenisation, 0 disagreements with the real tokenizer); reports of the fix run vs a fresh run, also with --fix_phase < 4 and phase 4 skipped; CLI fix-then-check runs.",
+        "technique": "Lean 4 proof (re-tokenisation of emitted lines, report reduction) + reparse comparison of real fix outputs",
+        "ref": "DESIGN.md §3 C08",
+        "note": "Class agreement of the fresh parse is layer U (classifier productions); decided per explored run.",
+    },
+    "C09": {
+        "text": "Lean theorems: fixRun_fixpoint (if every scheduled error-type fixable rule reports nothing on the output and the post-phase-1 normalisation is the identity on it, a second fix run returns it unchanged and writes nothing), second_fix_unchanged_partial, no_cycle_of_fixpoint, eventually_constant_of_consecutive_eq, genuine_cycle, and soundness of the bounded sequence classifier the harness uses (classify_converged_sound, classify_cycle_sound). Convergence of the real rule set is emergent from ~960 unmodelled analyses, so the theorem is a reduction; the harness evaluates its hypotheses on every first output and checks that whenever they hold the second fix indeed changes nothing (correspondence of the reduction), and searches: corpus × variants × configurations fixed up to five times through re-parsing, cycle detection, minimisation of the non-converging rule set by delta debugging.",
+        "technique": "Lean 4 proof (fixpoint reduction, sequence classifier) + iterated real fix runs with rule-set minimisation",
+        "ref": "DESIGN.md §3 C09",
+        "note": "Findings are identified by the base class of the first rule that still changes the file in the second run; the minimal interacting rule set is kept in the replay detail.",
+    },
+    "C11": {
+        "text": "Lean model of the code-tag state machine (code_tags.New.update, set_code_tags with its three stamping orders, str.split over CPython's whitespace table, ':' remarks, prefix matching, next-line tags), has_code_tag, violation.has_code_tag and Rule.add_violation, and an independent declarative specification (backwards scan for the governing tag comment). Theorems for all token sequences, positions and rule ids: stamp_spec (suppressed by the stamped tags ⇔ suppressed by the specification), report_filter (the violations add_violation keeps are exactly those none of whose tokens is suppressed), bare_off_whole_file, bare_off_region, next_line_one_break (a next-line tag governs exactly up to the second following line break), spec_off_region; for the pre-repair has_code_tag the statement is refuted by `decide` witnesses and kept under an explicit guard. Tie: random tag/comment sequences through the real set_code_tags vs the driver; tagged vs neutrally-commented variants of corpus files through the real check and fix engine, every violation offered to add_violation judged against the Lean specification.",
+        "technique": "Lean 4 proof (state machine = declarative spec) + differential testing of tagged vs neutral files",
+        "ref": "DESIGN.md §3 C11",
+    },
     "C06": {
         "text": "Lean reductions with the frame hypothesis as an explicit structure (analyses read the token list through a view they keep): check_rules is read-only, repeatable, per-rule results are independent of the other rules (checkRules_solo), disabling a set removes exactly its violations from the all-phases report (checkRules_disable, report_disable) and permuting rules inside a sub-phase permutes nothing observable (checkRules_order); counter-models by `decide` show each statement fails when an analysis leaks state through a token attribute, and that the disable clause needs --all_phases. Tie (the frame hypothesis is TESTED on the real code): attribute snapshots of every token, rule object and module global around every rule's analyze; repeated checks; random and targeted disabled subsets with bisection to the interfering pair; shuffled intra-sub-phase order; analysis order, counters and logs compared with the Lean driver.",
         "technique": "Lean 4 proof (reduction to a frame hypothesis, counter-models) + frame hypothesis tested on the real analyses",
